@@ -4,6 +4,7 @@ package main
 // heap model of trans.go.
 
 import (
+	"os"
 	"fmt"
 	"go/ast"
 	"go/constant"
@@ -448,6 +449,9 @@ func (c *evalCtx) resolveLocal(name string) *sv {
 			case *ssa.DebugRef:
 				if id, ok := y.Expr.(*ast.Ident); ok && id.Name == name && !y.IsAddr {
 					best = y.X
+					if os.Getenv("GOVC_DEBUG") != "" {
+						fmt.Fprintf(os.Stderr, "  dbgref %s in block %d (hdr %d upto %d): %v pos %v\n", name, d.Index, b.Index, c.env.upto, y.X, t.fn.Prog.Fset.Position(y.Pos()))
+					}
 				}
 			}
 		}
@@ -478,6 +482,38 @@ func (c *evalCtx) resolveLocal(name string) *sv {
 			}
 		}
 	}
+	if _, isC := best.(*ssa.Const); isC && best != nil {
+		// go/ssa may attach the declaration `var x = e` to the variable's zero value (the reference is emitted before the
+		// initialising store is lifted). If every other reference to x in the function names one and the same value, defined
+		// in a block that dominates this point, x was never reassigned and that value is x here.
+		var other ssa.Value
+		unique := true
+		for _, d := range t.fn.Blocks {
+			for _, ins := range d.Instrs {
+				y, ok := ins.(*ssa.DebugRef)
+				if !ok || y.IsAddr {
+					continue
+				}
+				if id, ok := y.Expr.(*ast.Ident); !ok || id.Name != name {
+					continue
+				}
+				if _, isConst := y.X.(*ssa.Const); isConst {
+					continue
+				}
+				if other != nil && other != y.X {
+					unique = false
+				}
+				other = y.X
+			}
+		}
+		if other != nil && unique {
+			if oi, ok := other.(ssa.Instruction); ok && oi.Block() != nil && oi.Block().Dominates(b) && oi.Block() != b {
+				if _, defd := t.val[other]; defd {
+					best = other
+				}
+			}
+		}
+	}
 	if bestAlloc != nil {
 		if _, ok := t.val[bestAlloc]; ok {
 			el := bestAlloc.Type().(*types.Pointer).Elem()
@@ -485,6 +521,9 @@ func (c *evalCtx) resolveLocal(name string) *sv {
 		}
 	}
 	if best != nil {
+		if os.Getenv("GOVC_DEBUG") != "" {
+			fmt.Fprintf(os.Stderr, "resolveLocal %s -> %v (%T) val=%v\n", name, best, best, t.val[best])
+		}
 		if _, ok := t.val[best]; ok {
 			return t.svOfTerms(t.vals(best), best.Type())
 		}
@@ -977,6 +1016,21 @@ func (c *evalCtx) call(x *ast.CallExpr) *sv {
 			return boolSV(fmt.Sprintf("(and (not (= (ityp %s) 0)) (= (iint %s) %s))", c.rv1(v), c.rv1(v), sym))
 		}
 		return boolSV(fmt.Sprintf("(= %s %s)", c.rv1(v), sym))
+	case "haskey":
+		// haskey(m, k): k is in the domain of map m
+		need(2)
+		mv := c.eval(args[0])
+		mt, ok := mv.ty.Underlying().(*types.Map)
+		if !ok {
+			c.fail("haskey needs a map")
+		}
+		ks, _ := mapSorts(mt)
+		if ks == "" {
+			c.fail("haskey: composite key")
+		}
+		m := c.rv1(mv)
+		k := c.rv1(c.eval(args[1]))
+		return boolSV(fmt.Sprintf("(and (not (= %s 0)) (select (select %s %s) %s))", m, c.t.H(c.cur, "MD_"+ks), m, k))
 	case "sentinel":
 		// sentinel("io.EOF"): the value of a well-known error variable
 		need(1)
